@@ -483,46 +483,52 @@ __CPROVER_assigns(g_top_calls, g_vert_calls)
                 canary=(r"setup_vert\(\);", "setup_top();"))
         U.append(Unit(f"{nm}.input_convention", "C13", [fn], enforce="ctor", globals_=G, inputs=["in_top"], harness=harness, replay=replay_by_native_search,
                       desc=f"{cls} constructor (dimensions, cells{', directions' if nm.endswith('4') else ''}, input_top_cells): values are taken as top-cell values exactly when input_top_cells is true, as vertex values otherwise"))
-    # vertex input: the numbers of top cells per direction handed to set_up_containers
+    # which sizes (numbers of top cells per direction) and which starting value reach set_up_containers, and in which order the
+    # construction runs: [periodic mask stored] -> set_up_containers -> input values written -> lower-star filtration imposed
     Gv = ("#define DMAX 4\ntypedef struct { unsigned a[DMAX]; size_t n; } vp_vec_u; typedef struct { bool a[DMAX]; size_t n; } vp_vec_b;\n"
-          "vp_vec_u g_sizes; bool g_pos_inf; unsigned g_setup_calls, g_fill_calls, g_impose_calls; unsigned g_seq;\n"
+          "vp_vec_u g_sizes; bool g_pos_inf; unsigned g_setup_calls, g_fill_calls, g_impose_calls, g_mask_calls; unsigned g_seq; bool g_mask_late;\n"
+          "static void rec_mask(void) { g_mask_calls++; if (g_seq != 0) g_mask_late = true; }\n"
           "static void rec_set_up_containers(vp_vec_u s, bool pos_inf) { g_sizes = s; g_pos_inf = pos_inf; g_setup_calls++; if (g_seq != 0) g_seq = 99; else g_seq = 1; }\n"
           "static void rec_fill(void) { g_fill_calls++; if (g_seq != 1) g_seq = 99; else g_seq = 2; }\n"
           "static void rec_impose(void) { g_impose_calls++; if (g_seq != 2) g_seq = 99; else g_seq = 3; }\n"
           "unsigned nondet_uint(void); bool nondet_bool(void); size_t nondet_size(void);\n")
-    for nm, path, cls, sel, per in (
-            ("base.setup_bitmap_based_on_vertices", B, CLS_B, rf"void {CLS_B}<T>::setup_bitmap_based_on_vertices\(const std::vector<unsigned>& sizes_in_following_directions,\s*const std::vector<T>& vertices\)", False),
-            ("per.construct_complex_based_on_vertices", PB, CLS_P, rf"void {CLS_P}<T>::construct_complex_based_on_vertices\(\s*const std::vector<unsigned>& dimensions, const std::vector<T>& vertices,\s*const std::vector<bool>& directions_in_which_periodic_b_cond_are_to_be_imposed\)", True)):
+    for nm, path, cls, sel, per, top in (
+            ("base.setup_bitmap_based_on_vertices", B, CLS_B, rf"void {CLS_B}<T>::setup_bitmap_based_on_vertices\(const std::vector<unsigned>& sizes_in_following_directions,\s*const std::vector<T>& vertices\)", False, False),
+            ("per.construct_complex_based_on_vertices", PB, CLS_P, rf"void {CLS_P}<T>::construct_complex_based_on_vertices\(\s*const std::vector<unsigned>& dimensions, const std::vector<T>& vertices,\s*const std::vector<bool>& directions_in_which_periodic_b_cond_are_to_be_imposed\)", True, False),
+            ("base.setup_bitmap_based_on_top_dimensional_cells_list", B, CLS_B, rf"void {CLS_B}<T>::setup_bitmap_based_on_top_dimensional_cells_list\(\s*const std::vector<unsigned>& sizes_in_following_directions, const std::vector<T>& top_dimensional_cells\)", False, True),
+            ("per.construct_complex_based_on_top_dimensional_cells", PB, CLS_P, rf"void {CLS_P}<T>::construct_complex_based_on_top_dimensional_cells\(\s*const std::vector<unsigned>& dimensions, const std::vector<T>& topDimensionalCells,\s*const std::vector<bool>& directions_in_which_periodic_b_cond_are_to_be_imposed\)", True, True)):
         dims = "dimensions" if per else "sizes_in_following_directions"
-        exp = f"{dims}.a[k] - (periodic.a[k] ? 0u : 1u)" if per else f"{dims}.a[k] - 1u"
+        exp = f"{dims}.a[k]" if top else (f"{dims}.a[k] - (periodic.a[k] ? 0u : 1u)" if per else f"{dims}.a[k] - 1u")
         Gx = Gv + (f"static bool sizes_ok(vp_vec_u {dims}, vp_vec_b periodic) {{ bool ok = g_sizes.n == {dims}.n; for (unsigned k = 0; k < DMAX; k++) if (k < {dims}.n) ok = ok && g_sizes.a[k] == {exp}; return ok; }}\n")
+        lim = " && ".join(f"{dims}.a[{k}] >= 2 && {dims}.a[{k}] <= 1073741824u" for k in range(4))
         conv = f"""
-__CPROVER_requires({dims}.n >= 1 && {dims}.n <= DMAX && periodic.n == {dims}.n && g_setup_calls == 0 && g_fill_calls == 0 && g_impose_calls == 0 && g_seq == 0)
-__CPROVER_requires({dims}.a[0] >= 2 && {dims}.a[1] >= 2 && {dims}.a[2] >= 2 && {dims}.a[3] >= 2 && {dims}.a[0] <= 1073741824u && {dims}.a[1] <= 1073741824u && {dims}.a[2] <= 1073741824u && {dims}.a[3] <= 1073741824u)
-__CPROVER_ensures(g_thrown != 0 || (g_setup_calls == 1 && !g_pos_inf && sizes_ok({dims}, periodic)))
+__CPROVER_requires({dims}.n >= 1 && {dims}.n <= DMAX && periodic.n == {dims}.n && g_setup_calls == 0 && g_fill_calls == 0 && g_impose_calls == 0 && g_mask_calls == 0 && g_seq == 0 && !g_mask_late)
+__CPROVER_requires({lim})
+__CPROVER_ensures(g_thrown != 0 || (g_setup_calls == 1 && g_pos_inf == {'true' if top else 'false'} && sizes_ok({dims}, periodic)))
 __CPROVER_ensures(g_thrown != 0 || (g_fill_calls == 1 && g_impose_calls == 1 && g_seq == 3))
-__CPROVER_assigns(g_sizes, g_pos_inf, g_setup_calls, g_fill_calls, g_impose_calls, g_seq, g_thrown)
+__CPROVER_ensures(g_mask_calls == {1 if per else 0} && !g_mask_late)
+__CPROVER_assigns(g_sizes, g_pos_inf, g_setup_calls, g_fill_calls, g_impose_calls, g_mask_calls, g_mask_late, g_seq, g_thrown)
 """
-        subs = [(r"this->directions_in_which_periodic_b_cond_are_to_be_imposed = directions_in_which_periodic_b_cond_are_to_be_imposed;", "", 0),
-                (r"std::vector<unsigned> (\w+);", r"vp_vec_u \1; \1.n = 0;"),
+        subs = [(r"this->directions_in_which_periodic_b_cond_are_to_be_imposed = directions_in_which_periodic_b_cond_are_to_be_imposed;", "rec_mask();", 0),
+                (r"std::vector<unsigned> (\w+);", r"vp_vec_u \1; \1.n = 0;", 0),
                 (r"std::transform\s*\((\w+)\.begin\(\), \1\.end\(\), std::back_inserter\((\w+)\),\s*\[\]\(int (\w+)\)\{ return ([^;]*);\}\);",
                  r"for (size_t vp_t = 0; vp_t < \1.n; vp_t++) { int \3 = (int)\1.a[vp_t]; \2.a[\2.n] = (unsigned)(\4); \2.n++; }", 0),
                 (r"std::transform\s*\((\w+)\.begin\(\), \1\.end\(\), (\w+)\.begin\(\),\s*std::back_inserter\((\w+)\), \[\]\(unsigned (\w+), bool (\w+)\)\{ return ([^;]*);\}\);",
                  r"for (size_t vp_t = 0; vp_t < \1.n; vp_t++) { unsigned \4 = \1.a[vp_t]; bool \5 = periodic.a[vp_t]; \3.a[\3.n] = (unsigned)(\6); \3.n++; }", 0),
                 (r"(?:this->)?set_up_containers\((\w+), (\w+)\);", r"rec_set_up_containers(\1, \2);"),
-                (r"std::size_t number_of_vertices = std::accumulate\([^;]*\);", "size_t number_of_vertices = g_nv;", 0),
-                (r"vertices\.size\(\)", "g_nv_given", 0), (r"std::cerr\s*<<[^;]*;", "", 0),
+                (r"std::size_t (\w+) = std::accumulate\([^;]*\);", r"size_t \1 = g_nv;", 0),
+                (r"\b\w+\.size\(\)", "g_nv_given", 0), (r"std::cerr\s*<<[^;]*;", "", 0),
                 (r"for_each_vertex\(\[this, &vertices, index=\(std::size_t\)0\] \(auto cell\) mutable \{ get_cell_data\(cell\) = vertices\[index\+\+\]; \}\);", "rec_fill();", 0),
-                (r"std::size_t i = 0;\s*for \(auto it = this->vertices_iterator_begin\(\); it != this->vertices_iterator_end\(\); \+\+it\) \{\s*this->get_cell_data\(\*it\) = vertices\[i\];\s*\+\+i;\s*\}", "rec_fill();", 0),
-                (r"(?:this->)?impose_lower_star_filtration_from_vertices\(\);", "rec_impose();")]
-        sigp = f"void build_from_vertices(vp_vec_u {dims}, vp_vec_b periodic)"
-        fn = Fn(path, sel, "build_from_vertices", conv, sig_subs=[(r"^.*$", sigp)], subs=subs, throw_ret="",
-                canary=(r"rec_set_up_containers\((\w+), false\)", r"rec_set_up_containers(\1, true)"))
-        U.append(Unit(f"{nm}", "C13", [fn], enforce="build_from_vertices", globals_=Gx + "int g_thrown; size_t g_nv, g_nv_given;\n", unwind=6, route="B",
+                (r"std::size_t (\w+) = 0;\s*for \(auto it = this->\w+_iterator_begin\(\);\s*it != this->\w+_iterator_end\(\); \+\+it\) \{\s*this->get_cell_data\(\*it\) = \w+\[\1\];\s*\+\+\1;\s*\}", "rec_fill();", 0),
+                (r"(?:this->)?impose_lower_star_filtration(?:_from_vertices)?\(\);", "rec_impose();")]
+        sigp = f"void build_complex(vp_vec_u {dims}, vp_vec_b periodic)"
+        fn = Fn(path, sel, "build_complex", conv, sig_subs=[(r"^.*$", sigp)], subs=subs, throw_ret="",
+                canary=(r"rec_impose\(\);", ";"))
+        U.append(Unit(f"{nm}", "C13", [fn], enforce="build_complex", globals_=Gx + "int g_thrown; size_t g_nv, g_nv_given;\n", unwind=6, route="B",
                       bound="dimension <= 4 (the per-direction loop is unwound); side lengths and the periodic mask symbolic", inputs=["in_d", "in_p"], replay=replay_by_native_search,
                       harness="int main(void) {\n  vp_vec_u in_d; vp_vec_b in_p; in_d.n = nondet_size(); in_p.n = in_d.n;\n  for (int k = 0; k < DMAX; k++) { in_d.a[k] = nondet_uint(); in_p.a[k] = nondet_bool(); }\n"
-                              "  g_setup_calls = 0; g_fill_calls = 0; g_impose_calls = 0; g_seq = 0; g_thrown = 0; g_nv = nondet_size(); g_nv_given = nondet_size();\n  build_from_vertices(in_d, in_p);\n  __CPROVER_assert(0, \"VP_REACH\");\n  return 0;\n}\n",
-                      desc=f"{cls}, construction from vertex values: set_up_containers receives, per direction, the number of vertices minus one ({'the number of vertices itself in a periodic direction' if per else 'always'}), with -infinity as the starting value; then the vertex values are written and the lower-star filtration from vertices is imposed, in that order"))
+                              "  g_setup_calls = 0; g_fill_calls = 0; g_impose_calls = 0; g_mask_calls = 0; g_mask_late = 0; g_seq = 0; g_thrown = 0; g_nv = nondet_size(); g_nv_given = nondet_size();\n  build_complex(in_d, in_p);\n  __CPROVER_assert(0, \"VP_REACH\");\n  return 0;\n}\n",
+                      desc=f"{cls}, construction from {'top-cell' if top else 'vertex'} values: " + ("the periodic mask is stored first; " if per else "") + "set_up_containers receives, per direction, " + ("the given size" if top else ("the number of vertices minus one (the number of vertices itself in a periodic direction)" if per else "the number of vertices minus one")) + f", with {'+' if top else '-'}infinity as the starting value; then the input values are written and the lower-star filtration is imposed, in that order"))
     return U
 
 def bfs_units(tier):
